@@ -38,12 +38,13 @@ static void build_grid() {
     static const uint32_t maxleafs[] = {1, 4, 6, 7, 13, 27};
     static const uint64_t xcr0s[] = {1, 3, 7, 0xE7};
     static const uint32_t l1x[] = {0x7ffafbffu & ~((1u << 26) | (1u << 27) | (1u << 28)), 0u};
-    for (uint32_t ml : maxleafs) for (int sse2 = 0; sse2 < 2; ++sse2) for (int avx2 = 0; avx2 < 2; ++avx2) for (int osx = 0; osx < 2; ++osx)
+    // hardware feature sets are kept consistent (AVX2 => AVX => SSE2); everything else is a free dimension
+    static const int feat[4][3] = {{0, 0, 0}, {1, 0, 0}, {1, 1, 0}, {1, 1, 1}};
+    for (uint32_t ml : maxleafs) for (auto &ft : feat) for (int osx = 0; osx < 2; ++osx)
         for (uint64_t x : xcr0s) for (int other = 0; other < 2; ++other) for (int intel = 0; intel < 2; ++intel) for (uint32_t e : l1x) {
-            CpuModel m; m.maxleaf = ml; m.sse2 = sse2; m.avx2 = avx2; m.osxsave = osx; m.avx = osx && (x & 4);   // AVX is only reported usable with OS support in these models
-            m.avx = (x & 4) != 0 || !osx ? ((x & 4) != 0) : false;
+            CpuModel m; m.maxleaf = ml; m.sse2 = ft[0]; m.avx = ft[1]; m.avx2 = ft[2]; m.osxsave = osx;
             m.l7_other_ebx = other ? (1u << 5) | 0x219c07abu : 0; m.intel_oor = intel; m.xcr0 = osx ? x : 0; m.l1_ecx_extra = e;
-            g_grid_names.push_back(strf("grid{maxleaf=%u,sse2=%d,avx=%d,avx2=%d,osxsave=%d,xcr0=0x%llx,l7sub=%s,oor=%s,l1ecx=%s}", ml, sse2, (int)m.avx, avx2, osx, (unsigned long long)m.xcr0, other ? "junk" : "zero", intel ? "intel" : "amd", e ? "typical" : "zero"));
+            g_grid_names.push_back(strf("grid{maxleaf=%u,sse2=%d,avx=%d,avx2=%d,osxsave=%d,xcr0=0x%llx,l7sub=%s,oor=%s,l1ecx=%s}", ml, (int)m.sse2, (int)m.avx, (int)m.avx2, osx, (unsigned long long)m.xcr0, other ? "junk" : "zero", intel ? "intel" : "amd", e ? "typical" : "zero"));
             g_grid.push_back(m);
         }
     for (size_t i = 0; i < g_grid.size(); ++i) g_grid[i].name = g_grid_names[i].c_str();
@@ -217,8 +218,10 @@ static std::string classify(const PropDef &pd, const Plan &p, const Violation &v
                 if (q.code == OP_SETTWEAK && (q.flags & F_NULLA)) nulltweak = true;
             }
             if (is_ctr(k)) trig += rekey_after_data ? "+rekey-midstream" : saw_ctr ? "+explicit-counter" : "+default-counter";
-            if (partial) trig += "+partial-key";
-            if (nulltweak) trig += "+null-tweak";
+            if (!(is_ctr(k) && rekey_after_data)) {
+                if (partial) trig += "+partial-key";
+                if (nulltweak) trig += "+null-tweak";
+            }
         }
     }
     (void)pd;
@@ -382,6 +385,7 @@ int main(int argc, char **argv) {
         else if (a == "--fingerprints") want_fp = true; else if (a == "--digests") want_digest = true; else if (a == "--tier") tier = nxt(); else if (a == "--quiet") quiet = true;
         else if (a == "--known") { std::string k = nxt(); size_t pos = 0; while (pos <= k.size()) { size_t c = k.find(',', pos); if (c == std::string::npos) c = k.size(); if (c > pos) known.insert(k.substr(pos, c - pos)); pos = c + 1; } }
     }
+    disable_aslr_and_reexec(argv);
     seams_init();
     build_grid();
     if (!g_spec.selftest()) { fprintf(stderr, "objsim: specification model failed its self-test against the published vectors\n"); return 2; }
